@@ -27,6 +27,10 @@ func NewTransport(tlscfg *tls.Config) *http.Transport {
 		// timeout cover it.
 		TLSHandshakeTimeout: cfg.Proxy.DialTimeout,
 		TLSClientConfig:     tlscfg,
+		// The proxy passes requests and responses on as they are: without
+		// this the transport asks the upstream for gzip on behalf of clients
+		// which did not send Accept-Encoding and unpacks the answer.
+		DisableCompression: true,
 	}
 }
 
